@@ -86,8 +86,9 @@ def run_workers(prop, tier, seed, nshards, watchdog_s, replay=None):
 
 def merge(results):
     m = {'counters': {}, 'cover': {}, 'samples': [], 'distinct': set(), 'violations': [],
-         'foreign': {}, 'notes': [], 'wall_s': 0.0}
+         'foreign': {}, 'notes': [], 'wall_s': 0.0, 'reach': set()}
     for r in results:
+        m['reach'].update(r.get('reach') or [])
         for k in ('counters', 'cover', 'foreign'):
             for a, b in r.get(k, {}).items():
                 if isinstance(b, (int, float)):
@@ -155,7 +156,13 @@ def check(prop, tier, seed):
         'workers': len(results), 'inconclusive_reasons': reasons,
         'known_findings_matched': {k: len(v[1]) for k, v in listed.items()},
         'repo': os.environ.get('VERIF_REPO', '/repo'),
+        'functions_reached': sorted(m['reach']),
+        'functions_reached_in_anchor_files': {f: sum(1 for x in m['reach'] if x.startswith(f + ':'))
+                                              for f in getattr(mod, 'ANCHOR_FILES', [])},
     })
+    for f in getattr(mod, 'ANCHOR_FILES', []):
+        if m['reach'] and not any(x.startswith(f + ':') for x in m['reach']):
+            reasons.append('no function of the anchored file %s was entered' % f)
     if getattr(mod, 'EXHAUSTIVE', False):
         cov['exhaustive'] = True
     ev = {'property_id': prop, 'tier': tier, 'seed': seed, 'level': mod.LEVEL, 'coverage': cov,
